@@ -166,4 +166,40 @@ theorem mem_lines_vs (s : Scene) (v : Seg)
   exact List.mem_map.mpr ⟨v, hv, rfl⟩
 
 
+theorem hasAt_iff {vs : List LV} {t : Rat} : hasAt vs t = true ↔ ∃ q ∈ vs, q.t = t := by
+  unfold hasAt
+  simp only [List.any_eq_true, beq_iff_eq]
+
+theorem exists_at_ensure (vs : List LV) (t : Rat) : ∃ q ∈ ensure vs t, q.t = t := by
+  unfold ensure
+  split
+  · rename_i h; exact hasAt_iff.mp h
+  · exact ⟨⟨t, .node⟩, by simp, rfl⟩
+
+theorem exists_at_foldl_ensure (ts : List Rat) (vs : List LV) (t : Rat) (ht : t ∈ ts) :
+    ∃ q ∈ ts.foldl ensure vs, q.t = t := by
+  induction ts generalizing vs with
+  | nil => simp at ht
+  | cons a r ih =>
+    simp only [List.foldl_cons]
+    rcases List.mem_cons.mp ht with rfl | ht
+    · obtain ⟨q, hq, hqt⟩ := exists_at_ensure vs t
+      exact ⟨q, mem_foldl_ensure_of_mem hq, hqt⟩
+    · exact ih _ ht
+
+theorem lines_hs_form (s : Scene) (p : Seg × List LV) (hp : p ∈ s.lines.hs) :
+    p.1 ∈ mergeAll (rawH s.lo s.hi s.rects s.fixDirs) ∧
+    p.2 = hVerts s.lo s.hi (mergeAll (rawV s.lo s.hi (s.rects.map Rect.tr) (s.fixDirs.map Conn.tr))) p.1 := by
+  unfold Scene.lines at hp
+  obtain ⟨h, hh, rfl⟩ := List.mem_map.mp hp
+  exact ⟨hh, rfl⟩
+
+theorem lines_vs_form (s : Scene) (p : Seg × List LV) (hp : p ∈ s.lines.vs) :
+    p.1 ∈ mergeAll (rawV s.lo s.hi (s.rects.map Rect.tr) (s.fixDirs.map Conn.tr)) ∧
+    p.2 = vVerts s.lo s.hi s.lines.hs p.1 := by
+  unfold Scene.lines at hp
+  obtain ⟨v, hv, rfl⟩ := List.mem_map.mp hp
+  exact ⟨hv, rfl⟩
+
+
 end AdaptaVerif.Lemmas.OrthVis
